@@ -350,7 +350,25 @@ def _pool(spec, table, cap):
 
 
 def _term_text(scale, factors):
+    """scale: None | one number (written first) | a tuple of (literal, position) pairs: several DISTINCT numeric literals,
+    each inserted before the factor at `position` (position == len(factors): written last)."""
+    if isinstance(scale, tuple):
+        parts = []
+        for i in range(len(factors) + 1):
+            parts += [repr(lit) for lit, pos in scale if pos == i]
+            if i < len(factors):
+                parts.append(factors[i])
+        return ":".join(parts)
     return ":".join(([repr(scale)] if scale is not None else []) + list(factors))
+
+
+def _scale_value(scale):
+    """The term's literal scale = the product of all its numeric literals."""
+    if scale is None:
+        return 1.0
+    if isinstance(scale, tuple):
+        return float(math.prod(lit for lit, _ in scale))
+    return float(scale)
 
 
 def _formula_text(intercept, terms):
@@ -384,13 +402,33 @@ def _cases_for_frame(spec, seed, frame_index, thorough):
             for fs in chosen:
                 fs = list(fs)
                 rng.shuffle(fs)
-                scale = rng.choice(SCALES) if rng.random() < 0.3 else None
+                u = rng.random()
+                if u < 0.24:
+                    scale = rng.choice(SCALES)
+                elif u < 0.32:  # two distinct literals at seeded positions
+                    a, b2 = rng.sample(SCALES + (2, 4), 2)
+                    scale = ((a, rng.randint(0, len(fs))), (b2, rng.randint(0, len(fs))))
+                else:
+                    scale = None
                 terms.append((scale, tuple(fs)))
             if cats and rng.random() < 0.35:
                 # write the first categorical as one of its C(...) variants throughout this formula
                 v = rng.choice(_variants_of(table, cats[0]))
                 terms = [(sc, tuple(v if f == cats[0] else f for f in fs)) for sc, fs in terms]
             cases.append((rng.random() < 0.7, terms))
+    # (2b) several distinct numeric literals in one term (ints and decimals, at different positions): the term's scale is
+    #      their product
+    multi_lits = [((2, 0), (3, 0)), ((0.5, 0), (4, "end")), ((2, "end"), (3, "end")), ((2, 0), (0.5, 1), (3, "end")), ((3, 1), (2.5, 1))]
+    base = [(f,) for f in pool[:3]] + list(itertools.permutations(pool[:3], 2))[:3]
+    flip = False
+    for fs in base:
+        for lits in multi_lits:
+            sc = tuple((lit, len(fs) if pos == "end" else min(pos, len(fs))) for lit, pos in lits)
+            flip = not flip
+            cases.append((flip, [(sc, fs)]))
+    if len(pool) >= 2:
+        cases.append((True, [(None, (pool[0],)), (((2, 0), (5, 0)), (pool[1],))]))
+        cases.append((False, [(((0.5, 1), (3, 0)), (pool[0],)), (None, (pool[1], pool[0]))]))
     # (3) systematic: every C(...) variant of the first categorical alone, crossed with a numeric / another categorical,
     #     and at both ranks in one build (V + V:x)
     if cats:
@@ -428,7 +466,7 @@ def _expected_terms(formula_text, generated_terms, intercept):
             else:
                 fs.append(f.expr)
         terms.append((scale, tuple(fs)))
-    want = sorted((float(s) if s is not None else 1.0, tuple(sorted(fs))) for s, fs in generated_terms)
+    want = sorted((_scale_value(s), tuple(sorted(fs))) for s, fs in generated_terms)
     if intercept:
         want.append((1.0, ()))
     got = sorted((s, tuple(sorted(fs))) for s, fs in terms)
@@ -769,7 +807,7 @@ def _run_e2e(ctx):
               "thorough single-term cases: all outputs under one kind + pandas output under a second), 0-3 categoricals (1..4 levels, + frames with one 6..8-level categorical; category/object/str dtype; also written "
               "C(A), C(A, levels=[reversed]), C(A, contr.SAS), C(A, contr.sum)), 0-3 numerics (+ I(a * 2), "
               "np.log(b), I(a + b), I(b ** 2)); formulas: every single term of <= 3 ordered factors from a pool of <= 5 (quick) / 6 (thorough), "
-              "x {no scale, 2.5:} x intercept on/off (exhaustive), + seeded 2-4 term formulas (100 quick / 600 thorough per frame) with scales "
+              "x {no scale, 2.5:} x intercept on/off (exhaustive), + terms with 2-3 distinct literals (ints/decimals, first/middle/last position), + seeded 2-4 term formulas (100 quick / 600 thorough per frame) with scales "
               f"{SCALES}; rank on/off; outputs rotate in the quick tier, all three in the thorough tier (single-term cases)",
     ) as b:
         totals, skipped = {}, 0
